@@ -399,6 +399,8 @@ func runC09(c *Ctx, tier string) {
 	runVectorSumExact(c, "C09-S1")
 	runVectorCountAccumulates(c, "C09-A1")
 	runVectorizeDeclinesSliced(c, "C09-G5")
+	runVectorCountReadsNulls(c, "C09-N2")
+	c.borrow(func(t *Ctx) { runVcacheLoadsWhatItProjects(t, "C03-P2") }, map[string]string{"C03-P2": "C09-P2"})
 }
 
 func init() {
